@@ -180,6 +180,22 @@ def _run(chk, prelude, harnesses, module_name, scratch):
     return by
 
 
+def replay_body(src, module_name, call, hname):
+    return ('\n# ---- generated harness module (verbatim) ----\n'
+            '_SRC = %r\n'
+            '_ns = {"__name__": "%s"}\n'
+            'with contextlib.redirect_stdout(io.StringIO()):\n'
+            '    exec(compile(_SRC, "%s.py", "exec"), _ns)\n'
+            'try:\n'
+            '    with contextlib.redirect_stdout(io.StringIO()):\n'
+            '        _r = eval(%r, _ns)\n'
+            'except Exception as _e:\n'
+            '    VIOLATED("%s: %%s: %%s on %%s" %% (type(_e).__name__, _e, %r))\n'
+            'if _r is not True:\n'
+            '    VIOLATED("%s returned %%r on %%s" %% (_r, %r))\n'
+            'HOLDS()\n') % (src, module_name, module_name, call, hname, call, hname, call)
+
+
 def _handle_errors(chk, h, errors, src, module_name, wall):
     for msg in errors[:3]:
         m = CALL_RE.search(msg)
@@ -188,19 +204,7 @@ def _handle_errors(chk, h, errors, src, module_name, wall):
             chk.fault('cannot parse crosshair counterexample for %s: %s' % (h.name, msg[:300]))
             continue
         call = m.group('call')
-        body = ('\n# ---- generated harness module (verbatim) ----\n'
-                '_SRC = %r\n'
-                '_ns = {"__name__": "%s"}\n'
-                'with contextlib.redirect_stdout(io.StringIO()):\n'
-                '    exec(compile(_SRC, "%s.py", "exec"), _ns)\n'
-                'try:\n'
-                '    with contextlib.redirect_stdout(io.StringIO()):\n'
-                '        _r = eval(%r, _ns)\n'
-                'except Exception as _e:\n'
-                '    VIOLATED("%s: %%s: %%s on %%s" %% (type(_e).__name__, _e, %r))\n'
-                'if _r is not True:\n'
-                '    VIOLATED("%s returned %%r on %%s" %% (_r, %r))\n'
-                'HOLDS()\n') % (src, module_name, module_name, call, h.name, call, h.name, call)
+        body = replay_body(src, module_name, call, h.name)
         verdict = chk.candidate(h.name, body, '%s: %s' % (h.what, call), kf_key=h.kf_key, model=call)
         chk.query(h.name, 'counterexample:' + verdict, wall, model=call[:300],
                   message=msg.split(' when calling')[0][:200])
